@@ -7,7 +7,7 @@ from props import fam_sym
 
 MANIFEST = dict(
     technique='Coq proof of the symmetry law of the direct sum (isotropic and anisotropic weights) and of its consequences (absent reflections zero, Friedel) for every tabulated group (abstract character, permutation of the group by left multiplication checked by the kernel per row) + textbook-sum / symmetry / R-factor oracles on gemmi',
-    text='THE FORM-FACTOR CACHE (Sfc/SfCache.v, a model of set_stol2_and_scattering_factors + get_scattering_factor with an abstract value type): for any sequence of calls made for one reflection - any elements and charges in any order - every call returns the value of its own (element, charge), table value plus addend, and the cache only holds neutral values (the snapshot logic is refuted by Fe then Fe3+); compared with the code on generated call histories (real StructureFactorCalculator<IT92>, returned value bit-identical to the table value plus addend, and the occupancy of the private cache after every call). The direct-sum oracle sets per-element addends (always when ions are present). The FFT-vs-direct oracle includes anomalous addends (IT92) and small cells in which one atom spans more than half a cell edge. CONSEQUENCES PROVED (Sfc/SfConseq.v, Sfc/SfAniso.v): (1) the symmetry law also holds when the weight of an image depends on the image through the index rotated into its frame, i.e. with ANISOTROPIC Debye-Waller factors exactly as calculate_sf_from_atom_sf evaluates them (any weight function of rot(g)^T h); (2) SYSTEMATICALLY ABSENT REFLECTIONS ARE ZERO: for every tabulated group and every reflection that is_systematically_absent flags (screw/glide and centring, the latter by a kernel-checked permutation of the operation list under each centring vector) the direct sum is 0, in any field with a faithful character; (3) FRIEDEL: with real weights F(-h) = conj F(h). Theorems: for every group of the table regenerated from /repo, every rotation part R, every hkl, every rational position and every weight, the sum over all symmetry images satisfies F(hR) = F(h) exp(-2 pi i h.t) (in any commutative ring with a character of period 24d; the re-indexing g -> R*g is a permutation of the operation list, kernel-checked for all 564 rows); the anisotropic image factor identity (hR)^T U (hR) = h^T (R U R^T) h. Oracles on gemmi: calculate_sf_from_model / _from_small_structure equal an independent long-double textbook sum (occupancy x form factor x iso/aniso DWF x phase over all images) for random structures incl. special positions, partial occupancies, ions, three tables; symmetry-equivalent reflections, Friedel mates, systematic absences checked on gemmi outputs; two ions of one element with different charges get their own form factors; FFT route (DensityCalculator + transform_map_to_f_phi) vs direct: R < 1% at default settings and not growing when rate/cutoff are refined.',
+    text='THE FORM-FACTOR CACHE (Sfc/SfCache.v, a model of set_stol2_and_scattering_factors + get_scattering_factor with an abstract value type): for any sequence of calls made for one reflection - any elements and charges in any order - every call returns the value of its own (element, charge), table value plus addend, and the cache only holds neutral values (the snapshot logic is refuted by Fe then Fe3+); SEVERAL REFLECTIONS on one calculator object (resets install reflection + addends and empty the cache): every history of resets and calls returns the value of the world installed last (C15_form_factor_cache_histories); compared with the code on generated call histories, also across reflections that share sin(theta)/lambda but not the addends (real StructureFactorCalculator<IT92>, returned value bit-identical to the table value plus addend, and the occupancy of the private cache after every call). The direct-sum oracle sets per-element addends (always when ions are present). The FFT-vs-direct oracle includes anomalous addends (IT92) and small cells in which one atom spans more than half a cell edge. CONSEQUENCES PROVED (Sfc/SfConseq.v, Sfc/SfAniso.v): (1) the symmetry law also holds when the weight of an image depends on the image through the index rotated into its frame, i.e. with ANISOTROPIC Debye-Waller factors exactly as calculate_sf_from_atom_sf evaluates them (any weight function of rot(g)^T h); (2) SYSTEMATICALLY ABSENT REFLECTIONS ARE ZERO: for every tabulated group and every reflection that is_systematically_absent flags (screw/glide and centring, the latter by a kernel-checked permutation of the operation list under each centring vector) the direct sum is 0, in any field with a faithful character; (3) FRIEDEL: with real weights F(-h) = conj F(h). Theorems: for every group of the table regenerated from /repo, every rotation part R, every hkl, every rational position and every weight, the sum over all symmetry images satisfies F(hR) = F(h) exp(-2 pi i h.t) (in any commutative ring with a character of period 24d; the re-indexing g -> R*g is a permutation of the operation list, kernel-checked for all 564 rows); the anisotropic image factor identity (hR)^T U (hR) = h^T (R U R^T) h. Oracles on gemmi: calculate_sf_from_model / _from_small_structure equal an independent long-double textbook sum (occupancy x form factor x iso/aniso DWF x phase over all images) for random structures incl. special positions, partial occupancies, ions, three tables; symmetry-equivalent reflections, Friedel mates, systematic absences checked on gemmi outputs; two ions of one element with different charges get their own form factors; FFT route (DensityCalculator + transform_map_to_f_phi) vs direct: R < 1% at default settings and not growing when rate/cutoff are refined.',
     note='Trusted: Coq kernel + vm_compute; translator; harness (long double reference sum using gemmi form-factor tables, which are property C16). No axioms. The numerical agreement of the C++ sum with the textbook sum and the FFT accuracy are oracle-only (libm, float).')
 
 
@@ -48,6 +48,14 @@ def run(chk):
             calls = [(z, rng.choice([0, 0, 2, 3, -1, 1])) for _ in range(rng.randint(2, 8))]
         lines.append('sfseq\t0 %d %d %s' % (rng.choice([0, 0, 1]), rng.choice([0, 1, 25, 100, 250, 900]),
                                              ' '.join('%d:%d' % c for c in calls)))
+    # several reflections on one calculator object: worlds that share the reflection but not the addends (w, w+5) and
+    # vice versa, the same world twice, gets before the first reset excluded (every entry point resets first)
+    for _ in range(300 if quick else 20000):
+        ops = []
+        for _ in range(rng.randint(1, 5)):
+            ops.append('R%d' % rng.choice([0, 1, 2, 5, 6, 10, 0, 5]))
+            ops += ['G%d:%d' % rng.choice(ions) for _ in range(rng.randint(1, 4))]
+        lines.append('sfhist\t0 ' + ' '.join(ops))
     res = vlib.correspond(chk, h, F.driver(), lines, timeout=3000)
     for (cmd, args, impl, model) in res['mismatches']:
         chk.violate('correspondence', 'form-factor cache model disagrees with gemmi on ' + cmd + ' ' + args,
